@@ -292,3 +292,22 @@ void h_compare_lexical(void) { const struct aws_byte_cursor *l, *r; GHOSTS_CMP()
 void h_compare_lookup(void) { const struct aws_byte_cursor *l, *r; const uint8_t *t; GHOSTS_CMP(); int c = aws_byte_cursor_compare_lookup(l, r, t); if (c < 0) CANARY("less"); else if (c > 0) CANARY("greater"); else CANARY("equal"); }
 void h_hash_array_ignore_case(void) { const void *a; size_t n; GHOST_RESET(); uint64_t h = aws_hash_array_ignore_case(a, n); if (n) CANARY("hashed"); else CANARY("empty"); }
 void h_hash_byte_cursor_ptr_ignore_case(void) { const void *c; GHOST_RESET(); uint64_t h = aws_hash_byte_cursor_ptr_ignore_case(c); CANARY("returned"); }
+
+/* ---------------- splitting / searching ---------------- */
+void h_next_split(void) { const struct aws_byte_cursor *in; char c; struct aws_byte_cursor *sub; GHOSTS_CMP();
+    bool first = 0;
+    bool r = aws_byte_cursor_next_split(in, c, sub);
+    if (r) CANARY("piece"); else CANARY("done");
+}
+void h_split_on_char_n(void) { const struct aws_byte_cursor *in; char c; size_t n; struct aws_array_list *out; GHOSTS_CMP();
+    int r = aws_byte_cursor_split_on_char_n(in, c, n, out);
+    if (r == 0) CANARY("split"); else CANARY("list full");
+}
+void h_split_on_char(void) { const struct aws_byte_cursor *in; char c; struct aws_array_list *out; GHOSTS_CMP();
+    int r = aws_byte_cursor_split_on_char(in, c, out);
+    if (r == 0) CANARY("split"); else CANARY("list full");
+}
+void h_find_exact(void) { const struct aws_byte_cursor *in; const struct aws_byte_cursor *f; struct aws_byte_cursor *out; GHOSTS_CMP();
+    int r = aws_byte_cursor_find_exact(in, f, out);
+    if (r == 0) CANARY("found"); else CANARY("not found");
+}
